@@ -5,6 +5,9 @@ HERE = os.path.dirname(os.path.dirname(os.path.abspath(__file__)))
 
 # id -> (technique, level text, level note, design ref)
 CHECKS = {
+ "C13": ("model-based testing against a per-clock reference timer + metamorphic batching invariance: proptest operation histories with shrinking, exhaustive TAC-rewrite relation",
+         "Generated histories of DIV/TIMA/TMA/TAC writes and time advances (1 to 200000 clocks, biased to period edges) run on the Timer device and through the bus; DIV, TIMA, TMA, TAC and the interrupt request of every operation are compared with models::timer, and every advance is re-executed split at generated cut points on a second instance that must observe the same. The TAC-rewrite glitch relation is enumerated over all 8x8 TAC pairs x 2048 divider phases.",
+         "trusted: models::timer; the DIV-write edge is set-valued (not named by the property)", "DESIGN.md §5 C13"),
  "C08": ("model-based lock-step testing against a reference CPU+interrupt model: exhaustive sequences up to length 5/6 over the 8-symbol alphabet + proptest sequences with shrinking",
          "All sequences up to length 5 (6 in thorough) over {EI, DI, RETI, HALT, STOP, NOP, raise IF, write IE} x initial master enable x IF/IE patterns x handler sets, and generated sequences up to length 40, run one instruction at a time through Core::update() in lock-step with models::sm83 + models::irq on a twin bus; PC, SP, registers, master-enable state, run state, IF, IE and pending dispatch cycles are compared after every step, the whole machine at the end.",
          "trusted: models::sm83 and models::irq; HALT with an enabled request already pending ends the case (excluded quirk, counted); STOP treated like HALT as the property states", "DESIGN.md §5 C08"),
